@@ -99,3 +99,27 @@ package dsp
 //@   loop 0: invariant forall k int :: numPixels <= k && k < len(dst) ==> dst[k] == old(dst[k])
 //@   loop 0: decreases numPixels - i
 //@   ensures forall k int :: 0 <= k && k < numPixels ==> dst[k] == SpecColorForward(m.GreenToRed, m.GreenToBlue, m.RedToBlue, old(src[k]))
+//
+// ---- C13: the amd64 Go wrapper around the SIMD up-sampling kernels ----
+//
+// The wrapper keeps the interpolated chroma of the top and the bottom output
+// row in one scratch buffer; the two rows must not overlap and each must hold
+// `width` entries, for every width (stack or heap buffer alike). Index safety
+// of the wrapper itself is part of the sweep. The assembly kernels it calls
+// cannot be read by a Go verifier (abstracted).
+//@ func UpsampleLinePairNRGBA
+//@   property C13 C05
+//@   requires width <= 0x10000000
+//@   modifies *
+//@   requires width > 0 ==> len(topY) >= width && len(topDst) >= 4*width && len(topU) >= (width+1)/2 && len(topV) >= (width+1)/2 && len(botU) >= (width+1)/2 && len(botV) >= (width+1)/2
+//@   requires width > 0 && botY != nil ==> len(botY) >= width && len(botDst) >= 4*width
+//@   requires alphaTop != nil ==> len(alphaTop) >= width
+//@   requires alphaBot != nil ==> len(alphaBot) >= width
+//@   loop 0: invariant 1 <= x && x <= lastPixelPair + 1 && lastPixelPair == (width-1)>>1
+//@   loop 0: invariant len(tUV) == width && (botY != nil ==> len(bUV) >= width)
+//@   loop 1: invariant 0 <= x && n4 == width &^ 3 && len(tUV) == width
+//@   loop 2: invariant 0 <= x
+//@   loop 3: invariant 0 <= x && n4 == width &^ 3 && botY != nil && len(bUV) >= width
+//@   loop 4: invariant 0 <= x
+//@   ensures width > 0 ==> len(tUV) == width
+//@   ensures width > 0 && botY != nil ==> base(bUV) == base(tUV) && offset(bUV) >= offset(tUV) + width && len(bUV) >= width
